@@ -11,7 +11,9 @@ import (
 	"encoding/xml"
 	"fmt"
 	"math"
+	"regexp"
 	"runtime"
+	"strconv"
 	"strings"
 
 	"github.com/sdcio/yang-parser/xpath"
@@ -218,8 +220,24 @@ func quoted(msg, s string) (bool, string) {
 			from = j + 1
 		}
 	}
-	return false, "error text has no position marker splitting the expression in two"
+	// other ways of marking a position that a reworded message might use: a number in range after a
+	// position word ("at offset 7", "column 3", "pos=12"), or a caret under a copy of the expression
+	if m := posWord.FindAllStringSubmatch(rest, -1); m != nil {
+		for _, g := range m {
+			if n, err := strconv.Atoi(g[2]); err == nil && n >= 0 && n <= len(s)+1 {
+				return true, ""
+			}
+		}
+	}
+	for _, line := range strings.Split(rest, "\n") {
+		if t := strings.TrimLeft(line, " \t-~"); strings.HasPrefix(t, "^") && len(line)-len(t) <= len(s)+16 && strings.Trim(t, "^~ ") == "" {
+			return true, ""
+		}
+	}
+	return false, "error text has no position marker (neither the expression split in two around a marker, nor a position word followed by a number inside the expression, nor a caret line)"
 }
+
+var posWord = regexp.MustCompile(`(?i)\b(position|pos|offset|column|col|char|character|index|byte)s?\b[ :=#]{0,3}(\d{1,9})`)
 
 type runOut struct {
 	panicked bool
